@@ -83,6 +83,7 @@ class Chunks(Contract):
                 self._range = SymRange(I2, args, node)
                 return self._range
             I.sym_range = mk
+            I.sym_truediv = lib_true_div
             I.lib_contracts = dict(I.__dict__.get('lib_contracts', {}))
             I.lib_contracts[('math', 'ceil')] = self.ceil
             return [self._list, Z(k)], {}, [n >= 1], dict(n=n, num_chunks=k)
